@@ -692,7 +692,7 @@ def check_C01(ctx):
 
 
 def check_C02(ctx):
-    family_a(ctx, {"extra": [("card", 45), ("early", 45), ("gc", 12)]})
+    family_a(ctx, {"extra": [("card", 45), ("early", 45), ("gc", 12), ("chain", 45)]})
     # "every way the response can be cut short": recorded real replies (a stream's
     # and a unary call's) cut at every byte offset must never be a success
     # (Framing!ChkCut, the same cases as in C07's check)
@@ -931,7 +931,7 @@ def check_C13(ctx):
     l2_stateless(ctx, "Creds", "creds",
                  "Creds!Cases: {in-process, HTTP} x {http, https (httptest TLS server)} x credentials requiring security or not x "
                  "credential result {none, metadata, empty map, error} x caller metadata {none, disjoint, overlapping keys} x "
-                 "{unary, streaming} x 0..2 grpc.Peer options; a counting RoundTripper, the handler's incoming metadata and peer "
+                 "{unary, streaming} x 0..2 grpc.Peer options x handler outcome {nil, non-OK status}; a counting RoundTripper, the handler's incoming metadata and peer "
                  "and the peer targets are recorded",
                  sig_keys=("tr", "scheme", "kind", "creds", "require"))
 
@@ -998,6 +998,13 @@ def check_C11(ctx):
                  "body class x {Server, HandleServices}), each sent to the real handler through httptest; the reply is parsed "
                  "(status, X-GRPC-Status, frames, trailer) and judged by HttpGate!Chk",
                  sig_keys=("method", "target", "ctype", "hdr", "timeout", "body", "carrier"))
+    # "no request makes the server panic or emit a malformed reply": HttpGate has
+    # four classes of GRPC-Timeout; every header shape of Deadline!ParseCases
+    # (the cases of C09's check) must get a well-formed reply too
+    l2_stateless(ctx, "Deadline", "deadline",
+                 "Deadline!ParseCases: every GRPC-Timeout header shape (valid and invalid units, 1..25 digits, signs, blanks, "
+                 "no digits) sent to the real server: no panic, a well-formed reply (Deadline!ChkGate)",
+                 expr="ParseCases", chk="ChkGate", sig_keys=("fam", "unit", "val", "digits", "sign"))
     ctx.assumptions += ["the grpchantesting.TestServer handlers are the application code; a counter wraps them",
                         "body classes are chosen to be decisively valid or invalid (a truncated unary protobuf that happens to "
                         "decode is not used)"]
